@@ -23,8 +23,8 @@ from pv import api, bounded, extract   # noqa: E402
 
 LEDGER = os.path.join(ROOT, 'baseline', 'ledger.json')
 FINDINGS = os.path.join(ROOT, 'known_findings.json')
-EVID = os.path.join(ROOT, 'evidence')
-REPLAYS = os.path.join(ROOT, 'replays')
+EVID = os.environ.get('PV_EVIDENCE_DIR') or os.path.join(ROOT, 'evidence')
+REPLAYS = os.environ.get('PV_REPLAY_DIR') or os.path.join(ROOT, 'replays')
 
 
 def load_contracts(prop):
@@ -272,7 +272,7 @@ def main(argv):
         out_lines.append(f"VIOLATION property={prop} replay={path} obligation={v['obligation']}{(' key=' + v['key']) if v.get('key') else ''}{tail}")
 
     level = meta.get('level', 'other')
-    if level == 'proof' and (n_proved != n_items or n_items == 0):
+    if level == 'proof' and (n_proved != n_items or n_items == 0 or unbound):
         level = 'other'
     coverage = {
         'obligations': n_items,
